@@ -4,6 +4,8 @@ C10 — proofs of the property theorems restated in Kap/Props/C10.lean. They liv
 -/
 import Kap.Proofs.C10Batch
 import Kap.Proofs.C10Flat
+import Kap.Proofs.C10Sort
+import Kap.Proofs.C10FlatStream
 set_option linter.unusedSimpArgs false
 namespace Kap.C10.Main
 open Kap.C10
@@ -160,5 +162,8 @@ theorem assign_mem_assignments {α : Type} (m : Nat → α → Bool) (l : Nat) :
         refine ⟨i, hi, ?_⟩
         simp only [hn, hp, if_true, List.mem_map]
         exact ⟨r, by rw [← he]; exact ih _ _ _ ha, rfl⟩
+
+theorem groupBy_spec (c : GroupByCfg) (p : Point) : groupByPoint c p = specGroupBy c p := by
+  simp [groupByPoint, specGroupBy, gbTagNames_eq]
 
 end Kap.C10.Main
